@@ -43,6 +43,9 @@ Abstract layout (plain dicts; the same structure is accepted by encode() and pro
       'pathtype','width','bgnextn','endextn','presentation','strans','mag','angle' : bool (present)
       'xy_split' : tuple of point counts per XY record, e.g. (2,3) - must sum to the number of points
                    written (boundary/box include the closing point)
+      'mag_shift','angle_shift' : int k (encoder only) - write the real UNNORMALISED with k leading zero
+                   hex digits (same value); layout['units_shift'] = (k1,k2) likewise for UNITS.  The strict
+                   decoder rejects unnormalised reals (class real8_unnormalised); decode(strict=False) reads them.
   Other choice points are part of the layout itself: optional header records (None = absent), order of
   'cells' (forward references), 'elflags'/'plex' (None = absent), 'props' (0..n), string lengths (odd
   lengths get the single NUL pad the format prescribes).
@@ -223,9 +226,20 @@ def _ascii(s):
     return s + (b'\0' if len(s) % 2 else b'')
 
 
-def _r8(x):
+def real8_denormalise(u, shift):
+    """the same value with `shift` leading zero hex digits in the mantissa (exponent raised by `shift`);
+    only possible when the dropped low digits are zero.  Unnormalised reals are unusual but decodable."""
+    if not shift or u == 0:
+        return u
+    m, e = u & ((1 << 56) - 1), (u >> 56) & 0x7F
+    if m % (16 ** shift) or e + shift > 127:
+        raise GdsError('choice', 'real %016x cannot be written with %d leading zero digits' % (u, shift))
+    return (u & (1 << 63)) | ((e + shift) << 56) | (m >> (4 * shift))
+
+
+def _r8(x, shift=0):
     u, _ = real8_encode(x)
-    return struct.pack('>Q', u)
+    return struct.pack('>Q', real8_denormalise(u, shift))
 
 
 DEFAULT_TIME = [2000, 1, 2, 3, 4, 5, 2000, 1, 2, 3, 4, 5]
@@ -320,9 +334,9 @@ def _strans_block(el, syn):
     if strans_p:
         out += record('STRANS', _u16bits(bits))
         if mag_p:
-            out += record('MAG', _r8(el['mag']))
+            out += record('MAG', _r8(el['mag'], syn.get('mag_shift', 0)))
         if ang_p:
-            out += record('ANGLE', _r8(el['angle']))
+            out += record('ANGLE', _r8(el['angle'], syn.get('angle_shift', 0)))
     return out
 
 
@@ -410,7 +424,8 @@ def encode(layout):
     elif layout.get('masks'):
         raise GdsError('choice', 'MASK records need a FORMAT record')
     u, m = layout['units']
-    out += record('UNITS', _r8(u) + _r8(m))
+    us = layout.get('units_shift', (0, 0))
+    out += record('UNITS', _r8(u, us[0]) + _r8(m, us[1]))
     for c in layout['cells']:
         out += record('BGNSTR', _i16(*c.get('bgnstr', DEFAULT_TIME)))
         out += record('STRNAME', _ascii(c['name']))
@@ -854,6 +869,13 @@ def selftest(verbose=True):
     assert real8_encode(Fraction(1, 1000))[0] in (0x3E4189374BC6A7EF, 0x3E4189374BC6A7F0)
     assert real8_decode(0x3E4189374BC6A7EF) - Fraction(1, 1000) < Fraction(1, 10 ** 18)
     assert not real8_normalised(0x4101000000000000) and not real8_normalised(0x4000000000000000)
+    for v in (1, 16, 256, Fraction(1, 16), Fraction(1, 256), 4096, Fraction(5, 2)):
+        u = real8_encode(v)[0]
+        for k in (1, 2, 5):
+            d = real8_denormalise(u, k)
+            assert real8_decode(d) == v and not real8_normalised(d), (v, k)
+            n += 1
+    assert real8_encode(16)[0] == 0x4210000000000000 and real8_encode(Fraction(1, 16))[0] == 0x4010000000000000
     # layouts: encode -> strict decode == identity (semantics and choice points)
     els = _selftest_alphabet()
     units = [(Fraction(1, 1000), Fraction(1, 10 ** 9)), (1, Fraction(1, 10 ** 6)), (0.5e-3, 0.5e-9)]
